@@ -123,7 +123,7 @@ func verifH_C10_response_header() {
 	verifReach("end")
 }
 
-//verif:harness id=C10 tier=quick,thorough witness=end bounds="ValidateRequest on operations whose optional parts are absent (no parameters, no body, no security, nil Components, requestBody without content / without schema) x request with or without body and Content-Type any ASCII text of 0-3 bytes; assertion = no panic"
+//verif:harness id=C10 tier=quick,thorough witness=end bounds="ValidateRequest on operations whose optional parts are absent (no parameters, no body, no security or a document-level requirement with nil Components and with or without an authentication callback, requestBody without content / without schema) x request with or without body and Content-Type any ASCII text of 0-3 bytes; assertion = no panic"
 func verifH_C10_request_shapes() {
 	op := &openapi3.Operation{}
 	switch verifChoose("body", 4) {
@@ -150,8 +150,12 @@ func verifH_C10_request_shapes() {
 	}
 	input := &RequestValidationInput{Request: req, Route: &routers.Route{Spec: spec, PathItem: &openapi3.PathItem{Get: op}, Operation: op, Method: "GET"},
 		Options: &Options{MultiError: verifNondetBool("multi")}, QueryParams: url.Values{}, PathParams: map[string]string{}}
-	if verifChoose("nilOptions", 2) == 1 {
+	switch verifChoose("nilOptions", 3) {
+	case 1:
 		input.Options = nil
+	case 2:
+		// an authentication callback is configured: the requirement's scheme is looked up (there are no components)
+		input.Options.AuthenticationFunc = NoopAuthenticationFunc
 	}
 	err := ValidateRequest(context.Background(), input)
 	if err != nil {
@@ -325,3 +329,6 @@ func verifH_C10_response_optional_parts() {
 	_ = ValidateResponse(context.Background(), in)
 	verifReach("end")
 }
+
+//verif:harness id=C10 tier=quick,thorough witness=end bounds="turning validation errors into responses: ConvertErrors / ValidationErrorEncoder on every RequestError shape of the C14 convert_errors harness (parameter absent or in path/query/header, body absent or present, eight error shapes incl. parse errors nested in parse errors, three route answers); assertion = no panic"
+func verifH_C10_convert_errors() { verifH_C14_convert_errors() }
